@@ -242,4 +242,11 @@ theorem merge_length_le (brk : α) (cs : List (Cap α)) (wf : WF cs) :
     rw [e'] at this
     simpa using this.symm
   · intro e; subst e; simp [runs]
+/-- **C19 (a later drop is a drop).** with a non-negative skew, once a caption list is sorted by start the dropped captions are
+    a prefix: if a caption survives, every later one survives too -/
+theorem adjust_drops_prefix (skew off : Rat) (hs : 0 ≤ skew) (a b : Cap α) (hab : a.start ≤ b.start)
+    (ha : 0 ≤ (retime skew off a).start) : 0 ≤ (retime skew off b).start := by
+  simp only [retime] at *
+  have := Rat.mul_le_mul_of_nonneg_right hab hs
+  grind
 end PcVerif.Props.C19
